@@ -3,7 +3,7 @@ import hashlib
 import re
 
 NA = "006e61"  # hex of "\x00na"
-FIELDS = ("route=", "u0=", "u1=", "chains=", "ran=", "long=", "code=", "dirty=", "laws=", "alts=")
+FIELDS = ("route=", "u0=", "u1=", "chains=", "ran=", "long=", "code=", "dirty=", "laws=", "alts=", "all=")
 
 
 def parse_out(line):
@@ -84,6 +84,14 @@ def cmp_dispatch(sess, R, M, params=False, chains=False, setup=False, urls=False
         if params and r.get("laws", "0") != "0" and set(r["laws"].split(",")) & set(m["params"].keys()):
             bad.append(i)      # EngineLaws monitor: a value of the WINNING form does not match its own expression in full
             continue
+        if (params or chains) and "all" in m:
+            # what the handler's parameter map holds beyond the winning route's binds may only be what the matcher
+            # wrote while serving THIS request (values of abandoned branches, documented): `all=` is the model's
+            # complete map; a key or value from anywhere else was carried over from another request
+            allowed = dict(kv.partition("=")[::2] for kv in m["all"].split(",")) if m["all"] != "-" else {}
+            if any(allowed.get(k) != v for k, v in r["params"].items()):
+                bad.append(i)
+                continue
         if params or op.startswith("IREQ "):
             ok = all(r["params"].get(k, "<none>") == v for k, v in m["params"].items())
             ok = ok and r.get("route") == m.get("route")
